@@ -64,7 +64,7 @@ partial def loop (h : IO.FS.Stream) (out : IO.FS.Stream) (st : DState) : IO Unit
   match line.splitOn "\t" with
   | op :: fields =>
     let f := fields.map unhex
-    match cacheStep st op f with
+    match (match lspStep st op f with | some r => some r | none => cacheStep st op f) with
     | some (st', r) =>
       out.putStrLn r
       loop h out st'
